@@ -29,6 +29,7 @@ Grammar (line oriented, '#' at column 0 starts a comment outside text sections):
       @timeout seconds
       @tier quick|thorough
       @canary on|off
+      @no-loop-contracts                   splice the bodies WITHOUT their @loop clauses (bounded concrete companion of a loop-contract proof; needs @unwindset)
       @allow-wrap <cname> ...              bodies in which unsigned wrap-around is intended (pragma disables the check there)
       @harness ... (C text; must define void verif_harness(void))
       @extra ... (C text appended before the harness: stub bodies etc.)
@@ -52,7 +53,7 @@ class Proof:
         self.bounded = None; self.complete_unwind = None; self.defines = []; self.timeout = 600
         self.tier = 'quick'; self.canary = True; self.harness = None; self.extra = ''; self.origin = None
         self.replay = None; self.note = ''; self.nondet_static = True; self.object_bits = None
-        self.expect_unreachable = False; self.includes = []; self.allow_wrap = []
+        self.expect_unreachable = False; self.includes = []; self.allow_wrap = []; self.no_loop_contracts = False
 
 class Spec:
     def __init__(self):
@@ -140,6 +141,7 @@ class Spec:
                         elif k == '@object-bits': p.object_bits = int(v[0])
                         elif k == '@note': p.note = ' '.join(v)
                         elif k == '@allow-wrap': p.allow_wrap += v
+                        elif k == '@no-loop-contracts': p.no_loop_contracts = True
                         elif k == '@replay': p.replay = v
                         elif k == '@include': p.includes += v
                         elif k == '@harness': sec = 'harness'; p.harness = ''
